@@ -467,6 +467,9 @@ impl<'p> Exec<'p> {
 
     fn op_boundary(&mut self) {
         self.ctx.tick("op");
+        if let Some(ts) = &self.ctx.ts {
+            ts.yield_point("op");
+        }
         if let Some(mut f) = self.on_op.take() {
             f(self);
             self.on_op = Some(f);
@@ -520,11 +523,18 @@ impl<'p> Exec<'p> {
         self.ensure_txn();
         let im = self.world.indexes[ix].clone();
         let vec = gen_vector(v, im.dim, self.plan.cfg.data_seed);
-        if let VecSpec::Gen { profile, .. } = v {
+        let mut root = v;
+        while let VecSpec::Derived { base, .. } = root {
+            root = base;
+        }
+        if let VecSpec::Gen { profile, .. } = root {
             self.profiles[ix] = Some(*profile);
             if !profile.accurate() {
                 self.world.indexes[ix].accurate = false;
             }
+        }
+        if matches!(v, VecSpec::Derived { tweak, .. } if tweak == "ulp") {
+            self.world.indexes[ix].accurate = self.world.indexes[ix].accurate && true;
         }
         let before = self.pre_dump();
         // would LMDB accept the append? the new key must sort after every key of the whole database
